@@ -88,7 +88,7 @@ func copyMap(m map[string]string) map[string]string {
 }
 
 func checkC15(c *Ctx) {
-	c.Rule = "seeded (plugin, deviceID, initial map, device list) tuples: composed key names of every length 1..66 with every character class (lower, upper, digit, _, -, ., /, other ASCII, control, non-ASCII, invalid UTF-8) in first/middle/last position of plugin and id; initial maps nil/empty/foreign keys/CDI keys including the key about to be generated (with empty and non-empty value); device lists valid / one invalid element at each position / one-letter vendor+class; distinct_nontrivial = distinct (name length, first/mid/last class of plugin, of id, map shape, device-list shape) signatures"
+	c.Rule = "seeded (plugin, deviceID, initial map, device list) tuples: composed key names of every length 1..66 with every character class (lower, upper, digit, _, -, ., /, other ASCII, control, non-ASCII, invalid UTF-8) in first/middle/last position of plugin and id; initial maps nil/empty/foreign keys/CDI keys including the key about to be generated (with empty and non-empty value); device lists valid / one invalid element at each position / one-letter vendor+class; plus every Unicode code point at the first, a middle and the last position of plugin name and device id; distinct_nontrivial = distinct (name length, first/mid/last class of plugin, of id, map shape, device-list shape) signatures"
 	c.Assume("M-GRAMMAR's Kubernetes qualified-name recogniser transcribes the k8s rule (prefix: DNS-1123 subdomain <=253, name part 1..63)", "UpdateAnnotations with an empty device list is outside the property's quantifier: observed, not judged", "whether a legal request must succeed is not stated by the property: failures of legal requests are counted (unexpected_failures), not judged")
 	n := c.pick(40000, 3000000)
 	per := 500
@@ -235,6 +235,51 @@ func checkC15(c *Ctx) {
 			c15Parse(cs, r)
 		}
 	})
+	// every Unicode code point in the first, a middle and the last position of the
+	// plugin name and of the device id: a key with a non-ASCII character is never a
+	// legal Kubernetes annotation key, whatever the character folds or maps to
+	const chunk = 0x8000
+	var names []string
+	for lo := 0; lo <= 0x10FFFF+1; lo += chunk {
+		names = append(names, fmt.Sprintf("runes:%d", lo))
+	}
+	c.RunNamed(names, 0, func(cs *Case) {
+		var lo int
+		fmt.Sscanf(cs.Name, "runes:%d", &lo)
+		n := 0
+		for cp := max(lo, 0x80); cp < lo+chunk && cp <= 0x10FFFF+1; cp++ {
+			rs := string(rune(cp))
+			for pos := 0; pos < 6; pos++ {
+				if c.Quick() && pos%3 != 1 && cp >= 0x3000 {
+					continue
+				}
+				plugin, id := "abc", "xyz"
+				if pos < 3 {
+					plugin = plugin[:pos] + rs + plugin[pos+1:]
+				} else {
+					id = id[:pos-3] + rs + id[pos-2:]
+				}
+				n++
+				var key string
+				var kerr, uerr error
+				var out map[string]string
+				if pv, st := guard(func() {
+					key, kerr = cdi.AnnotationKey(plugin, id)
+					out, uerr = cdi.UpdateAnnotations(nil, plugin, id, []string{"vendor.com/class=dev"})
+				}); pv != nil {
+					cs.Violation("panic", nil, fmt.Sprintf("AnnotationKey/UpdateAnnotations panic for plugin %q id %q: %v", plugin, id, pv), map[string]any{"stack": st})
+					return
+				}
+				if kerr == nil || uerr == nil {
+					cs.Violation("illegal-key", map[string]string{"sweep": "code-points"}, fmt.Sprintf("plugin %q, device id %q (U+%04X at position %d): AnnotationKey = %q err=%v, UpdateAnnotations = %v err=%v; a key with a non-ASCII character is not a legal Kubernetes annotation key", plugin, id, cp, pos, key, kerr, out, uerr), map[string]any{"plugin": plugin, "deviceID": id, "code_point": cp})
+					return
+				}
+			}
+		}
+		c.Count("code_points_swept", min(chunk, 0x10FFFF+2-lo))
+		c.AddEvaluations(n)
+	})
+	c.Floor("code_points_swept", 1000000)
 	c.Sample(3, map[string]any{"plugin": "vendor.com_gpu", "deviceID": "a/b", "devices": []string{"vendor.com/gpu=0", "a/b=c"}, "expected": "one key cdi.k8s.io/vendor.com_gpu_a_b whose value parses back to the two devices in order"})
 	c.Sample(3, map[string]any{"plugin": "p", "deviceID": "x", "initial_map": map[string]string{"cdi.k8s.io/p_x": ""}, "expected": "error, map untouched (key already used, even with an empty value)"})
 	for l := 61; l <= 66; l++ {
